@@ -104,35 +104,39 @@ def handshake_qos2(ctx):
             pubrel_enq.append(e)
     if len(pubrel_enq) != 1:
         out.append(Inst("HANDSHAKE-QOS2", "one-pubrel-enqueue", False, pb.site(0), "%d PUBREL enqueues" % len(pubrel_enq), "exactly one PUBREL per QoS 2 publish"))
+    thr = ctx.spec("reasons").get("failure_threshold", 128) if isinstance(ctx.spec("reasons"), dict) else 128
+
+    def good_pubrec_edges(bb):
+        """Dominating edges of bb on which the awaited PUBREC's reason is known to be below the failure threshold."""
+        found = []
+        for (d, s_) in dominating_edges(pb, bb):
+            c = Cond(pb, d)
+            if c.kind != "cmp":
+                continue
+            n = c.cmp_norm(field_pred(pb, "reason"))
+            if not n or pb.fold(n[1]) is None:
+                continue
+            truth = c.holds_on(s_)
+            if truth is None:
+                continue
+            k = pb.fold(n[1])
+            eff = n[0] if truth else {"Lt": "Ge", "Ge": "Lt", "Gt": "Le", "Le": "Gt", "Eq": "Ne", "Ne": "Eq"}[n[0]]
+            below = (eff == "Lt" and k == thr) or (eff == "Le" and k == thr - 1)
+            at = pb.atoms(c.a) | pb.atoms(c.b)
+            from_rx = any(a[0] == "call" and "oneshot::Receiver" in a[1] for a in at)
+            is_pubrec = any(a[0] == "downcast" and a[1] == "Pubrec" for a in at)
+            if below and from_rx and is_pubrec:
+                found.append((d, s_))
+        return found
     for e in pubrel_enq:
-        guarded = False
-        for (d, s_) in dominating_edges(pb, e.inner_bb):
-            si = pb.switch_info(d)
-            if not si or si["kind"] != "discr" or si.get("adt") != "std::ops::ControlFlow":
-                continue
-            vals = pb.edge_value(d, s_)
-            if vals != [0]:
-                continue
-            at = pb.atoms(si["place"])
-            clos = {a[1] for a in at if a[0] == "closure"}
-            if clos & thr_bodies and any(a[0] == "call" and "oneshot::Receiver" in a[1] for a in at):
-                guarded = True
+        edges = good_pubrec_edges(e.inner_bb)
+        guarded = bool(edges)
         out.append(Inst("HANDSHAKE-QOS2", "pubrel-after-good-pubrec", guarded, e.site(),
-                        "PUBREL enqueue %s dominated by the Continue edge of the `?` over the PUBREC reason check" % ("is" if guarded else "is NOT"),
+                        "PUBREL enqueue %s dominated by the edge `reason < 0x%x` of a test on the awaited PUBREC's reason" % ("is" if guarded else "is NOT", thr),
                         "after a failing PUBREC no PUBREL is ever sent"))
-    # ... and after a PUBREC with reason < 0x80 the PUBREL is always produced: no other way out of the function
-    for e in pubrel_enq:
-        for (d, s_) in dominating_edges(pb, e.inner_bb):
-            si = pb.switch_info(d)
-            if not si or si["kind"] != "discr" or si.get("adt") != "std::ops::ControlFlow" or pb.edge_value(d, s_) != [0]:
-                continue
-            at = pb.atoms(si["place"])
-            if not ({a[1] for a in at if a[0] == "closure"} & thr_bodies):
-                continue
-            # every exit reachable from the Continue edge without passing the enqueue
+        # ... and after a PUBREC with reason < 0x80 the PUBREL is always produced: no other way out of the function
+        for (d, s_) in edges[:1]:
             reach = pb.reachable_from(s_, avoid=[e.inner_bb])
-            leaks = [x for x in reach if pb.term(x)["k"] == "return" or (pb.term(x)["k"] == "call" and pb.term(x)["dest"]["l"] == 0 and not pb.term(x)["dest"]["p"])]
-            leaks = [x for x in leaks if any(st["k"] == "assign" and st["lhs"]["l"] == 0 for st in pb.blocks[x]["stmts"]) or pb.term(x)["k"] == "call"]
             direct = []
             for x in reach:
                 for st in pb.blocks[x]["stmts"]:
@@ -625,7 +629,7 @@ def own(ctx):
         enq = [e for e in ctx.effects(body) if e.kind == "Enqueue"]
         res = [e for e in exits(ctx, body) if e["kind"] == "residual"]
         for e in enq:
-            prop = [x for x in res if x["cause"]["kind"] == "enqueue-failed" and body.dominates(e.inner_bb, x["bb"]) and x["try_bb"] is not None and _feeds(body, e.inner_bb, x["try_bb"])]
+            prop = [x for x in res if x["cause"]["kind"] == "enqueue-failed" and body.dominates(e.inner_bb, x["bb"]) and x["try_bb"] is not None and _feeds(body, e.inner_bb, x)]
             out.append(Inst("OWN", "%s:enqueue-propagated@%s" % (name, len([o for o in out if o.key.startswith("OWN:%s:enqueue" % name)])), len(prop) == 1, e.site(),
                             "failed enqueue %s" % ("reaches `?`" if prop else "is ignored"), "fails immediately with ContextExited once the context is gone"))
         res_exits = [x for x in exits(ctx, body) if x["kind"] == "residual" and x["try_bb"] is not None]
@@ -637,7 +641,7 @@ def own(ctx):
                 pd = t["dest"]["l"]
                 prop = False
                 for x in res_exits:
-                    o = body.origin(body.term(x["try_bb"])["ops"][0], through_calls=False)
+                    o = body.origin(x["try_op"], through_calls=False) if x.get("try_op") is not None else ("?",)
                     if o[0] == "place" and o[1]["l"] == pd and body.dominates(a["ready_bb"], x["try_bb"]):
                         prop = True
                 out.append(Inst("OWN", "%s:await-result-propagated@%s" % (name, len([o_ for o_ in out if o_.key.startswith("OWN:%s:await-result" % name)])), prop, body.site(a["poll_bb"]),
@@ -649,9 +653,11 @@ def own(ctx):
     return out
 
 
-def _feeds(body, call_bb, try_bb):
-    t = body.term(try_bb)
-    o = body.origin(t["ops"][0], through_calls=False)
+def _feeds(body, call_bb, x):
+    """The `?` of residual exit x tests the result of the call in call_bb."""
+    if x.get("try_op") is None:
+        return False
+    o = body.origin(x["try_op"], through_calls=False)
     return o[0] == "call" and o[1] == call_bb
 
 
